@@ -54,6 +54,10 @@ let json_str s = "\"" ^ escape s ^ "\""
 
 let () =
   let only_eval = Array.length Sys.argv > 1 && Sys.argv.(1) = "eval" in
+  (* "prop=Cxx": the property on whose behalf the specification is evaluated *)
+  let prop = ref "" in
+  Array.iter (fun a -> if String.length a > 5 && String.sub a 0 5 = "prop=" then prop := String.sub a 5 (String.length a - 5)) Sys.argv;
+  let propb = bytes_of_raw !prop in
   (try
     while true do
       let line = input_line stdin in
@@ -88,7 +92,7 @@ let () =
               st.mm <- st.mm + 1; incr nmm;
               if !nmm <= keep then mismatches := (op, hargs, impl_esc, escape model) :: !mismatches
             end;
-            (match Oracle.oracle_spec opb args (bytes_of_raw impl) with
+            (match Oracle.oracle_spec propb opb args (bytes_of_raw impl) with
              | None -> ()
              | Some true -> st.sc <- st.sc + 1
              | Some false ->
